@@ -708,3 +708,7 @@ def run(ctx):
     _run_main2(ctx)
     extras2(ctx)
     ctx.flush()
+
+
+# evidence: how the model is tied to the source on every run (as built, supersedes the value above)
+TIE = 'translator (mutators, running_average, remove_poly, butter_pass selection and Gibbs padding -> Gen/Mutators, Gen/Mutators2; Props/C17Gen, C17Gen2) + correspondence'
